@@ -1487,5 +1487,11 @@ func (s *keysorter) Swap(i, j int) {
 
 // Swap is part of sort.Interface.
 func (s *keysorter) Less(i, j int) bool {
-	return s.hashes[s.index[i]] < s.hashes[s.index[j]]
+	hi, hj := s.hashes[s.index[i]], s.hashes[s.index[j]]
+	if hi == hj {
+		// Distinct keys with equal hashes still need a fixed order, otherwise two
+		// maps built from the same pairs differ depending on map iteration order.
+		return s.keys[s.index[i]].String() < s.keys[s.index[j]].String()
+	}
+	return hi < hj
 }
